@@ -12,6 +12,7 @@ events:
   q <c> O                                any other command
   Q …                                    as q …: the whole command arrived in the connection's first 64-byte read
   re …                                   as r …: the frame was processed before `Write` had recorded the command as the latest
+  rx <c> …                               a frame read before the fresh link was attached to connection c: dropped unseen
   r <c> R L|U|I <tok> <result> <flag> <db> <lockid> <key> <lcount> <count> <lrcount> <rcount> <data>   lock result from the leader
   r <c> I <tok> <result> <itype> | r <c> C <tok> <result> <content> | r <c> X
   d <c>                                  the link of connection c loses its socket
@@ -124,6 +125,7 @@ def parseTransEvent' (ts : List String) : Option Event :=
     match parseTransEvent ("r" :: rest) with
     | some (.leaderMsg c m _) => some (.leaderMsg c m true)
     | _ => none
+  | "rx" :: c :: _ => do pure (.unattached (← c.toNat?))
   | _ => parseTransEvent ts
 
 def runTrans (s : Node) : List String → List String → Option (List String)
